@@ -20,6 +20,19 @@ theorem exit0_main_runPlan (C : exit0_Ctx) (hG : exit0_Good C) (hm : C.env.stdin
   obtain ⟨b', h⟩ := World.wpS_sound plan (exit0_mainP C hG hm hsyn confOk conf input hdirs hstep hreg true) hp.budget
   exact h he
 
+/-- **The standard fuel suffices** for a run that ends without the error flag (maildir mode, at most one fault,
+`exit0_Good`: no directory walked twice, distinct names, every name of a walked directory registered, no message sent to a
+directory still to be walked): no `readdir` loop of the model stopped for lack of fuel. -/
+theorem exit0_main_fuel (C : exit0_Ctx) (hG : exit0_Good C) (hm : C.env.stdinMode = false) (hsyn : C.env.syntaxOnly = false)
+    (confOk : Bool) (conf : List ConfBlock) (input : Bytes) (hdirs : C.dirs = exit0_dirsOf conf)
+    (hstep : ∀ b ∈ conf, exit0_StepOK C.env C.orc b.expr) (hreg : WholeReg C.w0 C.files0)
+    (plan : Plan) (hp : World.SingleFault plan)
+    (he : (runPlan plan (mainP C.env C.orc confOk conf C.files0 input) C.w0 0 []).1.2.error = false) :
+    (runPlan plan (mainP C.env C.orc confOk conf C.files0 input) C.w0 0 []).1.2.fuelOut = false := by
+  rw [World.runPlan_eq] at he ⊢
+  obtain ⟨b', h⟩ := World.wpS_sound plan (exit0_mainP' C hG hm hsyn confOk conf input hdirs hstep hreg true) hp.budget
+  exact (h he).2.2
+
 /-- In maildir mode exit status 0 means that the error flag is clear. -/
 theorem exit0_status_zero (env : PEnv) (orc : EvalOracles) (confOk : Bool) (conf : List ConfBlock) (files : Files) (input : Bytes)
     (w : World) (plan : Plan) (hm : env.stdinMode = false)
@@ -47,11 +60,13 @@ def exit0_Placed (env : PEnv) (orc : EvalOracles) (e : Expr) (D n c : Bytes) (st
   | .nomatch => ∃ fid, st.files.get D n = some c ∧ w'.lookup D n = some fid ∧ w'.file fid = some ⟨c, c⟩
   | _ => False
 
-/-- **Exit status 0 of a whole run** (maildir mode, real run, rules without discard, at most one fault,
+/-- **Exit status 0 of a whole run** (maildir mode, real run, rules without discard that ask the operating system
+nothing - no `command`, `isdirectory`, file-time `date` condition -, at most one fault,
 no message visited twice): every message of the initial registry in a configured maildir is where the
 rules put it, and the log is the reference log. -/
 theorem exit0_main_exit0 (env : PEnv) (orc : EvalOracles) (confOk : Bool) (conf : List ConfBlock) (files : Files) (input : Bytes)
     (w : World) (plan : Plan) (hm : env.stdinMode = false) (hsyn : env.syntaxOnly = false) (hdry : env.dryrun = false)
+    (hfree : ∀ b ∈ conf, asksFree b.expr = true)
     (hnd : ∀ b ∈ conf, WholeNoDiscard env orc b.expr) (hreg : WholeReg w files)
     (hG : exit0_Good ⟨env, orc, exit0_dirsOf conf, files, w⟩) (hp : World.SingleFault plan)
     (h0 : (runPlan plan (mainP env orc confOk conf files input) w 0 []).1.1 = 0) :
@@ -62,7 +77,7 @@ theorem exit0_main_exit0 (env : PEnv) (orc : EvalOracles) (confOk : Bool) (conf 
       exit0_refDirs ⟨env, orc, exit0_dirsOf conf, files, w⟩ (exit0_dirsOf conf) := by
   have he := exit0_status_zero env orc confOk conf files input w plan hm h0
   have hinv := exit0_main_runPlan ⟨env, orc, exit0_dirsOf conf, files, w⟩ hG hm hsyn confOk conf input rfl
-    (fun b hb => exit0_step_real env orc b.expr hdry (hnd b hb)) hreg plan hp he
+    (fun b hb => exit0_step_real env orc b.expr (hfree b hb) hdry (hnd b hb)) hreg plan hp he
   obtain ⟨hpl, hlog⟩ := exit0_final hG hreg hinv
   refine ⟨?_, hlog⟩
   intro D e n c hmem hc
